@@ -151,7 +151,13 @@ def _base(version, form):
         if version not in _inv:
             _inv[version] = G.Inv(s)
             _base_issues[version] = [_issue_key(i) for i in s.check_compliance()]
-        _base_xml[key] = s.get_as_xml_string(save_merged=(form == "merged"))
+        if form == "merged":
+            # the shipped file itself (partnered libraries ship in merged form) - no writer of /repo involved
+            lib, _, ver = version.rpartition("_")
+            with open(os.path.join(BUNDLED, "HED_%s_%s.xml" % (lib, ver) if lib else "HED%s.xml" % ver), encoding="utf-8") as f:
+                _base_xml[key] = f.read()
+        else:
+            _base_xml[key] = s.get_as_xml_string(save_merged=False)     # unmerged form exists only as writer output
     return _base_xml[key], _inv[version]
 
 
